@@ -883,7 +883,7 @@ class ProgramGen:
         if k < 78 and self.in_va and not strict:
             self.feat("select-n")
             return Par(Call(Var("select"), Int(r.choice([1, 2, -1])), Str("pad"), Dots()))
-        if k < 84 and self.in_va and not strict:
+        if k < 84 and self.in_va and not strict and self.pf.get("paren_dots"):
             self.feat("dots-paren")
             return Par(Dots())
         if k < 90:
@@ -998,6 +998,10 @@ class ProgramGen:
         used = False
         for v in tg:
             c0 = self.impc
+            if v.ty == "str" and (self.loop_depth > 0 or self.fn_level > 0):
+                # linear growth only: no self-concatenation inside loops / functions
+                es.append(Bin("concat", Var(v.name), Str(r.choice([b"a", b"", b"xy"]))) if r.chance(1, 2) else Str(r.choice(STR_POOL)))
+                continue
             es.append(self.exp(v.ty, 0, not used and not self.pure, used))
             used = used or self.impc != c0
             if v.level < self.fn_level:
@@ -1116,11 +1120,18 @@ class ProgramGen:
             return None
         i, v = self.fresh("i"), self.fresh("e")
         vs = self.vars_of("seq")
+        busy = None
         if vs and r.chance(2, 3):
-            src = Var(r.choice(vs).name)
+            busy = r.choice(vs)
+            src = Var(busy.name)
         else:
             src = self.e_seq(0, False, True)
+        was = busy.info.get("busy") if busy else None
+        if busy:
+            busy.info["busy"] = True       # the sequence being traversed is not modified in the body
         body = self.loop_body(1 + r.below(2), [V(i, "int", mutable=False), V(v, "any", mutable=False)])
+        if busy:
+            busy.info["busy"] = was
         self.feat("stat:forin-ipairs")
         return [ForIn([i, v], [Call(Var("ipairs"), src)], body)]
 
@@ -1285,7 +1296,7 @@ class ProgramGen:
         r = self.rng
         if self.pure:
             return None
-        vs = self.vars_of("seq")
+        vs = [v for v in self.vars_of("seq") if not v.info.get("busy")] if self.fn_level == 0 else []
         if not vs or r.chance(1, 3):
             t = self.fresh("t")
             e = self.e_seq(0, False, True)
@@ -1390,7 +1401,7 @@ class ProgramGen:
         if k == 1:
             ev, op = r.choice([("__unm", "neg"), ("__bnot", "bnot"), ("__len", "len")])
             self.feat("metaevent:" + ev)
-            h = Fn(["x", "y"], False, [self.emit_stat([Str(ev), Bin("eq", Var("x"), Var("y"))]), Return(Bin("add", Fld(Var("x"), "v"), Int(1)), Int(99))])
+            h = Fn(["x", "y"], False, [self.emit_stat([Str(ev), Bin("eq", Var("x"), Var("y")) if self.pf.get("unary_dummy") else Fld(Var("x"), "v")]), Return(Bin("add", Fld(Var("x"), "v"), Int(1)), Int(99))])
             return pre + [Assign([Fld(Var(mt), ev)], [h])] + mk + [self.emit_stat([Un(op, Var(a))])]
         if k == 2:
             ev, op = r.choice([("__lt", "lt"), ("__le", "le"), ("__lt", "gt"), ("__le", "ge")])
@@ -1630,7 +1641,7 @@ class ProgramGen:
         elif k == 1:
             body = [Local(["t"], [Tab(FPos(Dots()))]), Return(Un("len", Var("t")), Dots())]
         elif k == 2:
-            body = [Local(["t"], [Tab(FPos(Dots()), FPos(Str("end")))]), Return(Un("len", Var("t")), Par(Dots()))]
+            body = [Local(["t"], [Tab(FPos(Dots()), FPos(Str("end")))]), Return(Un("len", Var("t")), Par(Dots()) if self.pf.get("paren_dots") else Par(Call(Var("select"), Int(1), Dots())))]
         elif k == 3:
             body = [Return(Call(Var("select"), Int(2), Dots()))]
         elif k == 4:
